@@ -32,6 +32,13 @@ def main():
     ids = sorted(d for d in os.listdir(base) if os.path.exists(os.path.join(base, d, "patch.diff")))
     if only:
         ids = [d for d in ids if d in only or d.split("-")[0] in only]
+
+    def obsolete(d):
+        try:
+            return bool(json.load(open(os.path.join(base, d, "meta.json"))).get("obsolete"))
+        except Exception:
+            return False
+    ids = [d for d in ids if not obsolete(d)]      # written against an older /repo HEAD and overtaken by a fix
     head = subprocess.run(["git", "-C", "/repo", "rev-parse", "HEAD"], stdout=subprocess.PIPE).stdout.decode().strip()
     workers = Queue()
     for w in range(a.jobs):
